@@ -117,11 +117,10 @@ def run_target(reg, target, rng, tier, budget=None, want=None):
             if label not in seen:
                 seen.add(label)
             for f in fails:
-                if len(out["failures"]) < 5:
+                per_clause = sum(1 for g in out["failures"] if g["clause"] == f["clause"])
+                if per_clause < 2 and len(out["failures"]) < 12:
                     out["failures"].append({"function": target, "clause": f["clause"], "observed": f["observed"],
                                             "input": label, "scenario": gen.__name__, "index": idx})
-            if fails and len(out["failures"]) >= 5:
-                break
     out["distinct"] = len(seen)
     return out
 
